@@ -1,7 +1,7 @@
 (** Property C07 — collect(), next() and fast_forward() are the same run.
     Statements only; proofs in Run/RunFacts.v.  Every statement is for an arbitrary matcher. *)
 From Coq Require Import ZArith List Bool.
-From V Require Import Scan.ScanModel Run.RunLoop Run.RunFacts.
+From V Require Import Scan.ScanModel Run.RunLoop Run.RunFacts Match.Adjudicate Match.Ctl.
 Import ListNotations.
 Open Scope Z_scope.
 
@@ -36,3 +36,19 @@ Theorem C07_partition : forall (C X : Type) (m : rs X -> line C -> rs X * bool) 
         then sel C (map (fun e => negb (ev_returned e)) t') (firstn (length t') recs) else []).
 Proof. exact fold_partition. Qed.
 Print Assumptions C07_partition.
+
+
+(** a concrete run (the control fragment of Match/Ctl.v): [ push("s1", line_number())  eq.nocontrib(line_number(), 2) -> stop() ] over
+    four records, scan 1*: collect(), next() and fast_forward() stop on line 2, return the same two lines and leave the same state;
+    collect(nexts=1) returns the first of them *)
+Example C07_nonvacuous :
+  let prog := [CAct (APush 1); CWhen (EqLine 2) true AStop] in
+  let recs := recs_of [false; false; false; false] in
+  let c := mkCfg (mkSc [] (Some 1) None true) false (end_of Z recs) false true false true in
+  let x0 := mkMx [] false true [] in
+  returned Z mx (collect Z mx (ctl_m c false prog) c x0 recs) = [[1]; [2]] /\
+  returned Z mx (next_all Z mx (ctl_m c false prog) c x0 recs) = [[1]; [2]] /\
+  st Z mx (collect Z mx (ctl_m c false prog) c x0 recs) = st Z mx (fast_forward Z mx (ctl_m c false prog) c x0 recs) /\
+  log (x mx (st Z mx (collect Z mx (ctl_m c false prog) c x0 recs))) = [(1, 1); (1, 2)] /\
+  returned Z mx (collect_n Z mx (ctl_m c false prog) 1%nat c x0 recs) = [[1]].
+Proof. vm_compute. repeat split. Qed.
